@@ -145,7 +145,7 @@ def showErrL : LoadErr → String
   | .fuel => "( fuel )"
 
 def showFatal : Fatal → String
-  | .seasoning => "seasoning" | .hook => "hook" | .unregistered => "unregistered"
+  | .seasoning _ => "seasoning" | .hook => "hook" | .unregistered => "unregistered"
   | .dictKey => "dictkey" | .fuel => "fuel"
 
 end YatimlModel.Driver
